@@ -135,10 +135,15 @@ def device_text():
 #include <Arduino.h>
 #include <LiquidCrystal.h>
 %s
-void __drv(LiquidCrystal &lcd, int a, int b, int c, const String &s, bool f, __redu_lcd_align al, char ch) {
+void __drv(LiquidCrystal &lcd, int a, int b, int c, const String &s, bool f, __redu_lcd_align al, char ch,
+           __redu_lcd_animation_state &st, unsigned long sp) {
   __redu_lcd_clear_row(lcd, a, b);
   __redu_lcd_write_aligned(lcd, a, b, c, s, f, al);
   __redu_lcd_progress(lcd, a, b, c, a, b, ch, s);
+  __redu_lcd_start_scroll(st, lcd, a, b, s, sp, f); __redu_lcd_tick_scroll(st, lcd, a);
+  __redu_lcd_start_blink(st, lcd, a, b, s, sp, f); __redu_lcd_tick_blink(st, lcd, a);
+  __redu_lcd_start_typewriter(st, lcd, a, b, s, sp, f); __redu_lcd_tick_typewriter(st, lcd, a);
+  __redu_lcd_start_bounce(st, lcd, a, b, s, sp, f); __redu_lcd_tick_bounce(st, lcd, a);
 }
 """ % E.LCD_HELPER_SNIPPET
 
